@@ -49,6 +49,20 @@ Section Ml.
   (* ---- placeholder for a short inclusion: 234-260 ---- *)
   Definition blank (s : str) : bool := forallb is_space s.
 
+  (* issue 117: a blank at the start / end of the inclusion is kept *)
+  Definition edge_first (incl : lsec) : result (str * list Z) :=
+    match s_txt incl with
+    | c :: _ => if is_space c then do q <- py_nth (s_pos incl) 0; Ok ([c], [q])
+                else Ok ([], [])
+    | [] => Ok ([], [])
+    end.
+  Definition edge_last (incl : lsec) : result (str * list Z) :=
+    match rev (s_txt incl) with
+    | c :: _ => if is_space c then do q <- py_last (s_pos incl); Ok ([c], [q])
+                else Ok ([], [])
+    | [] => Ok ([], [])
+    end.
+
   (* returns the extended section and the rotated collection table *)
   Definition append_placeholder (rot : list (str * list str)) (sec incl : lsec)
     : result (lsec * list (str * list str)) :=
@@ -69,22 +83,10 @@ Section Ml.
           do p0 <- py_nth (s_pos incl) start;
           let t := ph in
           let p := repeat p0 (length ph) in
-          do tp <-
-            match s_txt incl, s_pos incl with
-            | c :: _, q :: _ => if is_space c then Ok (c :: t, q :: p) else Ok (t, p)
-            | _ :: _, [] => if match s_txt incl with c :: _ => is_space c | [] => false end
-                            then Exc IndexError else Ok (t, p)
-            | [], _ => Ok (t, p)
-            end;
-          let '(t, p) := tp in
-          do tp2 <-
-            match rev (s_txt incl) with
-            | c :: _ => if is_space c
-                        then do q <- py_last (s_pos incl); Ok (t ++ [c], p ++ [q])
-                        else Ok (t, p)
-            | [] => Ok (t, p)
-            end;
-          let '(t, p) := tp2 in
+          do e1 <- edge_first incl;
+          do e2 <- edge_last incl;
+          let t := fst e1 ++ ph ++ fst e2 in
+          let p := snd e1 ++ repeat p0 (length ph) ++ snd e2 in
           Ok ({| s_lang := s_lang sec; s_back := s_back sec; s_brk := s_brk sec;
                  s_txt := s_txt sec ++ t; s_pos := s_pos sec ++ p |}, rot)
       end.
